@@ -18,9 +18,9 @@ sel="$*"; [ -z "$sel" ] && sel=$(ls seeded/refactors)
 for x in $sel; do
   d=seeded/refactors/$x
   base=$(cat $d/base 2>/dev/null || echo 787d91c)
-  [ -f /tmp/rf.base.$base.txt ] || run "$base" "" > /tmp/rf.base.$base.txt
-  run "$base" "/verif/$d/patch.diff" > /tmp/rf.cur.txt
-  new=$(comm -13 /tmp/rf.base.$base.txt /tmp/rf.cur.txt)
+  [ -f /tmp/rf.base.$$.$base.txt ] || run "$base" "" > /tmp/rf.base.$$.$base.txt
+  run "$base" "/verif/$d/patch.diff" > /tmp/rf.cur.$$.txt
+  new=$(comm -13 /tmp/rf.base.$$.$base.txt /tmp/rf.cur.$$.txt)
   echo "## $d: $(echo "$new" | grep -c . ) new alarm(s)"; [ -n "$new" ] && echo "$new" | cut -c1-220
 done
-rm -f /tmp/rf.base.*.txt /tmp/rf.cur.txt $snap
+rm -f /tmp/rf.base.$$.*.txt /tmp/rf.cur.$$.txt $snap
